@@ -117,8 +117,12 @@ pub fn fixings(out: &str) {
         dates.dedup();
         let cal = get_calendar_by_name(calname).expect("calendar");
         let (lo, hi) = (dates[0], *dates.last().unwrap());
+        // the library's own stepping over the same span: the next business day after each publication (add_bus_days by one)
+        // and the business-date range of the whole history
+        let nxt: Vec<i64> = dates.iter().map(|d| match guard(|| cal.add_bus_days(&dn(*d), 1, false)) { Outcome::Ok(Ok(x)) => nd(&x), _ => -1 }).collect();
+        let range_same = match guard(|| cal.bus_date_range(&dn(lo), &dn(hi))) { Outcome::Ok(Ok(v)) => v.iter().map(nd).collect::<Vec<i64>>() == dates, _ => false };
         o.emit(&json!({"op":"fix","key":format!("fix/{}/{}", ccy, calname),"ccy":ccy,"cal":calname,"dates":dates,"w0":lo,"n":hi-lo+1,
-                       "bus":bitmap(lo, hi, |d| cal.is_bus_day(d))}));
+                       "bus":bitmap(lo, hi, |d| cal.is_bus_day(d)), "nxt": nxt, "range_same": range_same}));
     }
     eprintln!("named fixings: {} events", o.finish());
 }
